@@ -397,6 +397,25 @@ where
         &mut self,
         diff: &Diff<T>,
     ) -> StdResult<(), Self::Error> {
+        // Verify the checkpoint against the new events before
+        // erasing anything; an empty event log has no snapshot
+        // to rollback to
+        let mut tree = CommitTree::new();
+        for record in diff.patch.records() {
+            tree.insert(*record.commit().as_ref());
+        }
+        tree.commit();
+        let computed = tree.head()?;
+        if computed != diff.checkpoint {
+            return Err(Error::CheckpointVerification {
+                checkpoint: diff.checkpoint.root,
+                computed: computed.root,
+                snapshot: None,
+                rollback_completed: false,
+            }
+            .into());
+        }
+
         // Create a snapshot for disc-based implementations
         let snapshot = self.try_create_snapshot().await?;
 
